@@ -334,6 +334,6 @@ var properties = map[string]*Property{
 			"request lines net/http itself rejects (unparsable URL) are not sent",
 			"the rule provider paths (file system, HTTP endpoint, Kubernetes informer) are covered for crashes by the C18 harnesses, whose process deaths are reported the same way",
 		},
-		MustBePositive: []string{"robust-sim/ruleset-accepted", "robust-sim/ruleset-rejected-by-factory", "robust-sim/ruleset-rejected-by-parser", "robust-sim/fault:type-confuse", "signer-reload/fault:torn-write-exposed", "reload-tls/reloads", "reload-httpsig/reloads", "provider-fs-conc/processor-calls", "listener-sim/well-behaved-requests-answered", "watcher-sim/rewrites-followed-by-notifications"},
+		MustBePositive: []string{"robust-sim/ruleset-accepted", "robust-sim/ruleset-rejected-by-factory", "robust-sim/ruleset-rejected-by-parser", "robust-sim/fault:type-confuse", "robust-sim/odd-request-accepted", "signer-reload/fault:torn-write-exposed", "reload-tls/reloads", "reload-httpsig/reloads", "provider-fs-conc/processor-calls", "listener-sim/well-behaved-requests-answered", "watcher-sim/rewrites-followed-by-notifications"},
 	},
 }
